@@ -70,30 +70,41 @@ theorem arith_neutralizeBin_fwd {op : BinOp} {l r : Arg} {c : Bool} {a' : Arg}
     | panic => simp [hn] at he
   · exact arith_neutralTail_fwd Q he hl hr
 
-theorem arith_neutralizeRaw_fwd {a : Arg} {c : Bool} {a' : Arg} (he : neutralizeRaw a = .ok (c, a'))
-    (h : arith Q a = true) : arith Q a' = true := by
-  cases a with
-  | bin op l r =>
-    simp only [arith, Bool.and_eq_true] at h
-    rcases neutralizeRaw_bin_cases op l r with h0 | ⟨x, y, rfl, rfl, rfl, h0⟩
-    · rw [h0] at he; exact arith_neutralizeBin_fwd Q he h.1 h.2
-    · rw [h0] at he
-      obtain ⟨_, c', he'⟩ := swapped_ok he
-      have hxy := h.2
-      simp only [arith, Bool.and_eq_true] at hxy
-      exact arith_neutralizeBin_fwd Q he' hxy.2 hxy.1
-  | neg v =>
-    rcases neutralizeRaw_neg_cases v with h0 | ⟨x, y, rfl, h0⟩
-    · rw [h0] at he
-      simp only [Res.ok.injEq, Prod.mk.injEq] at he
-      obtain ⟨_, rfl⟩ := he; exact h
-    · rw [h0] at he
-      obtain ⟨_, c', he'⟩ := swapped_ok he
+theorem arith_neutralizeRaw_fwd_all : ∀ (a : Arg) (c : Bool) (a' : Arg), neutralizeRaw a = .ok (c, a') →
+    arith Q a = true → arith Q a' = true := by
+  apply Arg.negNegInd
+  · intro a hnn c a' he h
+    cases a with
+    | bin op l r =>
       simp only [arith, Bool.and_eq_true] at h
-      exact arith_neutralizeBin_fwd Q he' h.2 h.1
-  | _ =>
-    simp only [neutralizeRaw, Res.ok.injEq, Prod.mk.injEq] at he
-    obtain ⟨_, rfl⟩ := he; exact h
+      rcases neutralizeRaw_bin_cases op l r with h0 | ⟨x, y, rfl, rfl, rfl, h0⟩
+      · rw [h0] at he; exact arith_neutralizeBin_fwd Q he h.1 h.2
+      · rw [h0] at he
+        obtain ⟨_, c', he'⟩ := swapped_ok he
+        have hxy := h.2
+        simp only [arith, Bool.and_eq_true] at hxy
+        exact arith_neutralizeBin_fwd Q he' hxy.2 hxy.1
+    | neg v =>
+      rcases neutralizeRaw_neg_cases v with h0 | ⟨x, y, rfl, h0⟩ | ⟨w, rfl, _⟩
+      · rw [h0] at he
+        simp only [Res.ok.injEq, Prod.mk.injEq] at he
+        obtain ⟨_, rfl⟩ := he; exact h
+      · rw [h0] at he
+        obtain ⟨_, c', he'⟩ := swapped_ok he
+        simp only [arith, Bool.and_eq_true] at h
+        exact arith_neutralizeBin_fwd Q he' h.2 h.1
+      · exact absurd rfl (hnn w)
+    | _ =>
+      simp only [neutralizeRaw, Res.ok.injEq, Prod.mk.injEq] at he
+      obtain ⟨_, rfl⟩ := he; exact h
+  · intro w ih c a' he h
+    rw [neutralizeRaw_neg_neg] at he
+    obtain ⟨_, c', he'⟩ := swapped_ok he
+    simp only [arith] at h
+    exact ih c' a' he' h
+
+theorem arith_neutralizeRaw_fwd {a : Arg} {c : Bool} {a' : Arg} (he : neutralizeRaw a = .ok (c, a'))
+    (h : arith Q a = true) : arith Q a' = true := arith_neutralizeRaw_fwd_all Q a c a' he h
 
 theorem arith_neutralize_fwd : ∀ a (c : Bool) (a' : Arg), neutralize a = .ok (c, a') → arith Q a = true →
     arith Q a' = true := by
@@ -235,7 +246,16 @@ theorem simplifyRaw_arith_fwd (a : Arg) (c : Bool) (a' : Arg) (he : simplifyRaw 
     | seq s => simp [arith] at h
     | func n s => simp [arith] at h
     | ident s => simp only [simplifyRaw, Res.ok.injEq, Prod.mk.injEq] at he; obtain ⟨_, rfl⟩ := he; exact h
-    | neg s => simp only [simplifyRaw, Res.ok.injEq, Prod.mk.injEq] at he; obtain ⟨_, rfl⟩ := he; exact h
+    | neg s =>
+      rw [simplifyRaw_neg_neg] at he
+      cases hn : neutralizeRaw (.neg (.neg s)) with
+      | panic => simp [hn] at he
+      | err e => simp [hn] at he
+      | ok p =>
+        obtain ⟨c1, z⟩ := p
+        simp only [hn, Res.ok.injEq, Prod.mk.injEq] at he
+        obtain ⟨_, rfl⟩ := he
+        exact arith_neutralizeRaw_fwd Q hn h
     | not s => simp only [simplifyRaw, Res.ok.injEq, Prod.mk.injEq] at he; obtain ⟨_, rfl⟩ := he; exact h
   | not v =>
     cases v with
